@@ -40,6 +40,13 @@ func c09Program(cases []c09Case, arms []int, forms []int, dflt bool, ctx int) st
 	case 3: // inside the arm of an outer match
 		sb.WriteString("let f (u: U) (v: U) =\n  match v with\n  | _ ->\n")
 		ind = "    "
+	case 5, 6: // in the LAST CASE arm of an outer match whose default arm follows (5: union outer, 6: string outer)
+		if ctx == 5 {
+			sb.WriteString("let f (u: U) (v: U) =\n  match v with\n  | OUTERFIRST ->\n")
+		} else {
+			sb.WriteString("let f (u: U) (s: string) =\n  match s with\n  | \"k\" ->\n")
+		}
+		ind = "    "
 	case 4: // after an earlier, exhaustive match on the same union (no state may leak between matches)
 		sb.WriteString("let g0 (u: U) =\n  match u with\n")
 		for i, c := range cases {
@@ -73,6 +80,9 @@ func c09Program(cases []c09Case, arms []int, forms []int, dflt bool, ctx int) st
 		sb.WriteString(ind + "| _ -> 0\n")
 	}
 	switch ctx {
+	case 5, 6:
+		// the arm that follows belongs to the OUTER match (it stands at the outer arms' column)
+		sb.WriteString("  | _ -> 9\n")
 	case 2:
 		sb.WriteString("  g u\n")
 	case 3:
@@ -90,6 +100,13 @@ func c09Check(cases []c09Case, arms []int, forms []int, dflt bool, ctx int) {
 			first += " _"
 		}
 		src = strings.Replace(src, "  match v with\n  | _ ->\n", "  match v with\n  | "+first+" -> 7\n  | _ ->\n", 1)
+	}
+	if ctx == 5 {
+		first := cases[0].name
+		if cases[0].payload != "" {
+			first += " _"
+		}
+		src = strings.Replace(src, "OUTERFIRST", first, 1)
 	}
 	_, err := vTranspile(src)
 	var cs, as []string
@@ -180,7 +197,7 @@ func vC09(seed int64, count int, extra []string) {
 					}
 					c09Check(cases, arms, forms, dflt, 0)
 					if mix >= 2 || n <= 3 {
-						c09Check(cases, arms, forms, dflt, 1+r.Intn(4))
+						c09Check(cases, arms, forms, dflt, 1+r.Intn(6))
 					}
 				}
 			})
@@ -202,6 +219,6 @@ func vC09(seed int64, count int, extra []string) {
 			arms[j] = r.Intn(n)
 			forms[j] = r.Intn(3)
 		}
-		c09Check(cases, arms, forms, r.Intn(3) == 0, r.Intn(5))
+		c09Check(cases, arms, forms, r.Intn(3) == 0, r.Intn(7))
 	}
 }
